@@ -1,7 +1,7 @@
 '''Drives the full stack (harness.clientlab.FullStack) along a behaviour of Client.tla or a
 random schedule, observing at quiescence.'''
 from harness.chainlab import SLOTS
-from harness.clientlab import FullStack
+from harness.clientlab import FullStack, NotifyBegun
 from harness.indexlab import StopRun
 
 X_SLOTS = [1, 4, 11, 3, 8]
@@ -59,29 +59,36 @@ class ClientRun(FullStack):
                     self.pool.discard(t)
                     changed = True
 
-    def do_same_height_reorg(self, touch):
+    def do_same_height_reorg(self, touch, back=False, drop=()):
         tip = self.tree.blocks[self.best]
         if tip.parent is None:
             return
         regular = tip.slots[1:]
         base = {s for b in self.tree.chain(tip.parent.bid) for s in b.slots}
-        if touch:
+        if drop:
+            txs = [t for t in regular if t not in drop]
+        elif touch:
             txs = [] if regular else self.pick(True, base)
         else:
             txs = list(regular)
         self.nb += 1
         self.tree.add(self.nb, tip.parent.bid, txs)
         self.prev_best, self.best = self.best, self.nb
-        # transactions of the dropped block that the new one does not contain are gone for good here
+        # transactions of the dropped block that the new one does not contain return to the daemon's mempool (back) or
+        # are gone for good
+        if back:
+            self.pool |= {t for t in regular if t not in txs}
         self.drop_invalid_pool()
         if self.bp.caught_up and self.bp.state.height >= 1:
             self.bp.force_chain_reorg(1)
 
-    def do_fork2(self):
+    def do_fork2(self, back=False):
         '''A natural reorg: the daemon moves to a branch one block longer that forks below the tip.'''
         tip = self.tree.blocks[self.best]
         if tip.parent is None:
             return
+        if back:
+            self.pool |= set(tip.slots[1:])
         self.nb += 1
         self.tree.add(self.nb, tip.parent.bid, [])
         a = self.nb
@@ -103,7 +110,7 @@ class ClientRun(FullStack):
                 gone |= more
             self.pool -= gone
             return
-        for t in [1, 2, 4, 3, 11, 7, 8]:
+        for t in [1, 2, 4, 5, 3, 8, 11, 7]:
             if t not in base and t not in self.pool and \
                     all((p in base or p in self.pool or p == 100) for p, _i in SLOTS[t]['ins']) and \
                     not any((p, i) in self.spent(base | self.pool) for p, i in SLOTS[t]['ins']):
@@ -152,18 +159,63 @@ class ClientRun(FullStack):
     def drive_model(self, evs):
         ids = {}
         for e in evs:
+            try:
+                self.model_event(e, ids)
+            except NotifyBegun:
+                pass
+            self.loop.run_until_idle()
+            self.track_jobs()
+            self.check_tasks()
+        g = next((x for x in self.gates if x.name == 'nbegin'), None)
+        if g:
+            g.release()
+
+    def model_event(self, e, ids):
+        if True:
             k = e['e']
+            # a flip of the has-unconfirmed-inputs flag of script 1's mempool part is made concrete with transaction 8
+            # (pays script 1) and its parent 5, which touches scripts 2 and 3 only
             if k == 'block':
-                self.do_block(e['touch'])
+                if e.get('flip') and {5, 8} <= self.pool:
+                    self.nb += 1
+                    self.tree.add(self.nb, self.best, [5])
+                    self.prev_best, self.best = self.best, self.nb
+                    self.pool -= {5}
+                    self.drop_invalid_pool()
+                else:
+                    self.do_block(e['touch'])
                 self.close_window()
                 self.sync_index_only()
             elif k == 'reorg':
-                self.do_same_height_reorg(e['touch'])
+                if e.get('flip') and 5 in self.tree.blocks[self.best].slots[1:] and 8 in self.pool:
+                    self.do_same_height_reorg(False, back=True, drop=(5,))
+                else:
+                    self.do_same_height_reorg(e['touch'])
                 self.sync_index_only()
             elif k == 'mempool':
-                self.do_mempool()
+                base = self.chain_slots()
+                if e.get('unc') and 5 not in base and 8 not in base and not ({5, 8} & self.pool) \
+                        and not any((p, i) in self.spent(base | self.pool) for p, i in SLOTS[5]['ins']):
+                    self.pool |= {5, 8}
+                elif not e.get('unc') and 5 in base and 8 not in base and 8 not in self.pool \
+                        and not any((p, i) in self.spent(base | self.pool) for p, i in SLOTS[8]['ins']):
+                    self.pool.add(8)
+                else:
+                    self.do_mempool()
+            elif k == 'nbegin':
+                # run until _notify_sessions is entered, and stop it at its header refresh
+                self.split_notify = True
+                try:
+                    self.run_until_note()
+                finally:
+                    self.split_notify = False
             elif k == 'notify':
-                self.run_until_note()
+                g = next((x for x in self.gates if x.name == 'nbegin'), None)
+                if g:
+                    g.release()
+                    self.loop.run_until_idle()
+                else:
+                    self.run_until_note()
             elif k in ('subscribe', 'query'):
                 name = 'a' if e['s'] == 1 else 'b'
                 method = 'blockchain.scripthash.subscribe' if k == 'subscribe' else 'blockchain.scripthash.get_history'
@@ -184,9 +236,6 @@ class ClientRun(FullStack):
                 if j is not None:
                     j.deliver()
                     self.loop.run_until_idle()
-            self.loop.run_until_idle()
-            self.track_jobs()
-            self.check_tasks()
 
     def job_for(self, mid, ids):
         '''The real read job standing for the model's read id (assigned in order of first use).'''
@@ -209,9 +258,9 @@ class ClientRun(FullStack):
             if k == 'block':
                 self.do_block(op['touch'])
             elif k == 'reorg':
-                self.do_same_height_reorg(op['touch'])
+                self.do_same_height_reorg(op['touch'], back=op.get('back', False))
             elif k == 'fork2':
-                self.do_fork2()
+                self.do_fork2(back=op.get('back', False))
             elif k == 'mempool':
                 self.do_mempool()
             elif k == 'subscribe':
